@@ -467,7 +467,14 @@ class Engine:
             return None
         self.inlined |= {body.path} | sub.inlined
         self.opaque |= sub.opaque
-        alts = [(p.value, [(c[0], c[1], c[2]) for c in p.conds], list(p.effects)) for p in res if p.kind == 'return']
+        base = 1000 * (self._apply_depth + 1) + st.next_fid
+        alts = []
+        for p in res:
+            if p.kind != 'return':
+                continue
+            # what the callback left in the store (assignments through captured references), without its own frames
+            new_store = {k: v for k, v in p.state.store.items() if not (k[0][0] == 'L' and k[0][1] >= base)}
+            alts.append((p.value, [(c[0], c[1], c[2]) for c in p.conds], list(p.effects), new_store))
         return alts or None
 
     _apply_depth = 0
@@ -671,6 +678,11 @@ class Engine:
                 fn = FnInfo({'path': tb.path, 'resolved': {'path': tb.path}, 'defkind': 'Closure' if f[0] == 'agg' else 'Fn'})
                 fv = ('fn', fn)
                 name = declared = tb.path
+        # 0c. a tuple-struct / tuple-variant constructor called as a function (directly or through a fn value)
+        if fn and (fn.get('defkind') or '').startswith('Ctor(') and self.facts.body(name) is None:
+            path = fn['path']
+            ty, var = (path.rsplit('::', 1) if fn['defkind'].startswith('Ctor(Variant') else (path, path.rsplit('::', 1)[-1]))
+            return self.finish_call(st, fr, bb, dest, target, ('agg', ty, var, tuple(args)), work, results, site)
         # 1. summaries
         summ = self.summaries.get(name) or self.summaries.get(declared)
         if summ is None and name.startswith('std::convert::num::<impl std::convert::From<') and name.endswith('>::from'):
@@ -736,6 +748,8 @@ class Engine:
                 s2 = st.copy()
                 if len(alt) > 2 and alt[2] is not None:
                     s2.effects = list(alt[2])
+                if len(alt) > 3 and alt[3] is not None:
+                    s2.store = dict(alt[3])
                 ok = True
                 for (term, op, val) in conds:
                     if not self.add_cond(s2, term, op, val, site):
